@@ -428,8 +428,13 @@ def functions(ctx):
         rt = r.choice(["float64", "int", "string", "bool", "uint64", "iface", ["slice", "string"], ["map", "float64"],
                        ["struct", [["Name", True, "string"], ["X1", True, ["slice", "uint8"]]]]])
         cases.append(dict(op="func", n=nf, pt=pt, rt=rt, ret=L.gen_go(r, rt, 2), seq=seq, arg=L.gen_js_for_type(r, pt, 2)))
-    for i in range(n // 3):
-        cases.append(dict(op="jsfunc", f=r.randint(1, 9), args=[L.gen_go(r, "iface", 2) for _ in range(r.randint(0, 3))]))
+    for i in range(n):
+        # a JS function as a variadic Go func, called with a spread of a slice that is (mostly) a sub-slice with non-zero offset
+        vt = r.choice(["iface", "iface", "int", "string", "float64", "uint8", "bool"])
+        fixed = [[t, L.gen_go(r, t, 1)] for t in r.sample(["string", "int", "bool"], r.choice([0, 0, 1, 2]))]
+        mk = lambda: L.gen_go(r, vt, 2)
+        cases.append(dict(op="jsfunc", f=r.randint(1, 9), vt=vt, fixed=fixed, args=[mk() for _ in range(r.randint(0, 4))],
+                          pre=[mk() for _ in range(r.choice([0, 1, 1, 2, 3]))], post=[mk() for _ in range(r.choice([0, 0, 1, 2]))]))
     cases.append(dict(op="block"))
     results = run_driver_sharded(cases, shard=200)
     items, seqs = [], []
@@ -483,16 +488,21 @@ def functions(ctx):
         elif c["op"] == "jsfunc":
             if res["fn"] != c["f"]:
                 ctx.violation("js-function-as-go-func", "calling the Go func made from JS function %d called %r" % (c["f"], res["fn"]), rep)
-            for a, got in zip(c["args"], res["args"]):
+            sent = [(t, v) for t, v in c["fixed"]] + [(c["vt"], a) for a in c["args"]]
+            if len(res["args"]) != len(sent):
+                ctx.violation("js-function-argument-count", "a JS function called through its Go func with %d arguments (spread of a slice at offset %d) receives %d" % (
+                    len(sent), len(c["pre"]), len(res["args"])), rep)
+            for (t, a), got in zip(sent, res["args"]):
                 try:
-                    exp = L.doc_ext("iface", a)
+                    exp = L.doc_ext(t, a)
                     if L.canon(exp) != L.canon(got):
-                        ctx.violation("js-function-argument-not-converted", "Go argument %s arrives in JS as %s, expected %s" % (
-                            json.dumps(a)[:150], json.dumps(got)[:150], json.dumps(exp)[:150]), rep)
+                        ctx.violation("js-function-argument-not-converted", "Go argument %s (spread of a slice at offset %d) arrives in JS as %s, expected %s" % (
+                            json.dumps(a)[:150], len(c["pre"]), json.dumps(got)[:150], json.dumps(exp)[:150]), rep)
+                        break
                 except L.NotDocumented:
                     pass
                 try:
-                    items.append((idx, "jsarg", "CExt TIface %s (Ok %s)" % (L.coq_go(a), L.coq_js(got))))
+                    items.append((idx, "jsarg", "CExt %s %s (Ok %s)" % (L.coq_type(t), L.coq_go(a), L.coq_js(got))))
                 except L.Weird:
                     pass
         else:
@@ -609,10 +619,36 @@ def parse_iface_tag(text):
     return None, "other"
 
 
+METH_DECLS = """
+type Meth struct {
+	*js.Object
+	N   int                                      `js:"n"`
+	Inc func(by int) int                         `js:"inc"`
+	Who func() string                            `js:"who"`
+	Add func(xs ...int) int                      `js:"add"`
+	Cat func(sep string, parts ...string) string `js:"cat"`
+}
+
+type OuterM struct {
+	Meth
+	extra int
+}
+
+func applyInt(f func(int) int, x int) int        { return f(x) }
+func applyStr(f func() string) string            { return f() }
+func applyVar(f func(...int) int, xs []int) int { return f(xs...) }
+"""
+METH_FACTORY = ("(function(n, tag){ return {n: n, tag: tag, inc: function(by){ this.n += by; return this.n; }, "
+                "who: function(){ return this.tag + ':' + this.n; }, "
+                "add: function(){ var s = this.n; for (var i = 0; i < arguments.length; i++) s += arguments[i]; return s; }, "
+                "cat: function(sep){ return this.tag + Array.prototype.slice.call(arguments, 1).join(sep); } }; })")
+
+
 def gen_program(r, pidx, quick):
     nA, nB, nC, nD = (40, 30, 24, 6) if quick else (60, 45, 36, 8)
+    nM, nV = (4, 8) if quick else (6, 12)
     lines = ["package main", "", 'import (', '\t"math"', '', '\t"github.com/gopherjs/gopherjs/js"', ')', "", "var _ = math.Pi", L.GO_HELPERS]
-    meta = dict(A=[], B=[], C=[], D=[])
+    meta = dict(A=[], B=[], C=[], D=[], M=[], V=[])
     body = ['\tev(%s)' % L.go_src_lit(" ".join(L.JS_PROBE.split()))]
     # A: accessors on JS values
     for i in range(nA):
@@ -694,10 +730,65 @@ def gen_program(r, pidx, quick):
             body.append('\t  println("DR", %d, %d, %s)' % (i, k, typed_observe_src(t, "t." + f)))
         body.append("\t}")
         meta["D"].append(dict(write=wr, read=rd))
+    # M: js-tagged FUNC fields (JS methods using `this`) called in place, as values, passed along, through a promoted field;
+    #    variadic ones with spreads of sub-slices; V: a JS function read through Interface() called with sub-slice spreads
+    lines.append(METH_DECLS)
+    body.append('\tmk := ev(%s)' % L.go_src_lit(METH_FACTORY))
+    body.append('\tshow := ev(%s).Interface().(func(...interface{}) *js.Object)' % L.go_src_lit("(function(){ return __ser(Array.prototype.slice.call(arguments)); })"))
+    n_extra_ev = 2
+    mi = 0
+    for k in range(nM):
+        n0 = r.randint(0, 50)
+        tag = "".join(r.choice("abcxyzQR") for _ in range(r.randint(1, 4)))
+        xs = [r.randint(0, 900) for _ in range(r.randint(2, 6))]
+        ws = ["".join(r.choice("pqrstuv") for _ in range(r.randint(1, 3))) for _ in range(r.randint(2, 5))]
+        body.append('\t{ m := &Meth{Object: mk.Invoke(%d, "%s")}; o := &OuterM{Meth: Meth{Object: m.Object}}; xs := []int{%s}; ws := []string{%s}; _, _, _, _ = m, o, xs, ws' % (
+            n0, tag, ", ".join(map(str, xs)), ", ".join('"%s"' % w for w in ws)))
+        n = n0
+        for _ in range(r.randint(6, 10)):
+            recv = r.choice(["m", "o"])
+            op = r.choice(["inc", "inc", "who", "add", "add", "cat", "n"])
+            use = r.choice(["inplace", "value", "passed"])
+            mode = op + "-" + use + ("-promoted" if recv == "o" else "")
+            if op == "inc":
+                by = r.randint(1, 30)
+                n += by
+                expr = {"inplace": "%s.Inc(%d)" % (recv, by), "value": "func() int { f := %s.Inc; return f(%d) }()" % (recv, by),
+                        "passed": "applyInt(%s.Inc, %d)" % (recv, by)}[use]
+                body.append('\t  println("M", %d, itoa(uint32(%s)))' % (mi, expr)); want = str(n)
+            elif op == "who":
+                expr = {"inplace": "%s.Who()" % recv, "value": "func() string { f := %s.Who; return f() }()" % recv, "passed": "applyStr(%s.Who)" % recv}[use]
+                body.append('\t  println("M", %d, hexs(%s))' % (mi, expr)); want = "x" + ("%s:%d" % (tag, n)).encode().hex()
+            elif op == "add":
+                lo = r.randint(0, len(xs)); hi = r.randint(lo, len(xs))
+                spread = r.random() < 0.7
+                args, tot = ("xs[%d:%d]..." % (lo, hi), sum(xs[lo:hi])) if spread else (", ".join(map(str, xs[lo:hi])), sum(xs[lo:hi]))
+                if use == "inplace" and spread:
+                    mode = "add-inplace-spread" + ("-promoted" if recv == "o" else "")
+                expr = {"inplace": "%s.Add(%s)" % (recv, args), "value": "func() int { f := %s.Add; return f(%s) }()" % (recv, args),
+                        "passed": "applyVar(%s.Add, xs[%d:%d])" % (recv, lo, hi)}[use]
+                body.append('\t  println("M", %d, itoa(uint32(%s)))' % (mi, expr)); want = str(n + tot)
+            elif op == "cat":
+                lo = r.randint(0, len(ws)); hi = r.randint(lo, len(ws))
+                expr = "func() string { f := %s.Cat; return f(\"-\", ws[%d:%d]...) }()" % (recv, lo, hi)
+                mode = "cat-value" + ("-promoted" if recv == "o" else "")
+                body.append('\t  println("M", %d, hexs(%s))' % (mi, expr)); want = "x" + (tag + "-".join(ws[lo:hi])).encode().hex()
+            else:
+                body.append('\t  println("M", %d, itoa(uint32(%s.N)))' % (mi, recv)); want = str(n); mode = "n-read" + ("-promoted" if recv == "o" else "")
+            meta["M"].append(dict(mode=mode, want=want))
+            mi += 1
+        body.append("\t}")
+    for k in range(nV):
+        vals = [L.gen_go(r, "iface", 1) for _ in range(r.randint(2, 6))]
+        vals = [v if (v["i"] is None or go_printable_type(v["i"]["t"])) else {"i": None} for v in vals]
+        lo = r.randint(0, len(vals)); hi = r.randint(lo, len(vals))
+        body.append('\t{ vs := []interface{}{%s}; println("V", %d, show(vs[%d:%d]...).String()) }' % (
+            ", ".join(L.go_value_src("iface", v) for v in vals), k, lo, hi))
+        meta["V"].append(dict(vals=vals[lo:hi], lo=lo))
     # receivers with other accessors, and the evaluation counts
     body.append('\trc(o).Set("gone", 1); rc(o).Delete("gone"); println("X", b01(rc(o).Get("gone") == js.Undefined), rc(arr).Length(), b01(rc(rc(o).Get("nothing")).Bool()))')
     n_rc[0] += 6
-    meta["n_ev"] = 1 + nA + nC + nD          # probe installation, one eval per A / C / D case
+    meta["n_ev"] = 1 + nA + nC + nD + n_extra_ev    # probe installation, one eval per A / C / D case, the M / V factories
     meta["n_rc"] = n_rc[0]
     body.append('\tprintln("N", nev, nrc)')
     lines.append("func main() {\n" + "\n".join(body) + "\n}")
@@ -782,7 +873,7 @@ def check_program(ctx, pidx, src, meta, items, stats):
             obs["N"] = (p[1], p[2])
         elif p[0] == "X":
             obs["X"] = " ".join(p[1:])
-        elif p[0] in ("A", "B", "C", "R", "DW") and len(p) >= 3:
+        elif p[0] in ("A", "B", "C", "R", "DW", "M", "V") and len(p) >= 3:
             obs[(p[0], int(p[1]))] = " ".join(p[2:])
         elif p[0] == "DR" and len(p) >= 4:
             obs[("DR", int(p[1]), int(p[2]))] = p[3]
@@ -898,6 +989,28 @@ def check_program(ctx, pidx, src, meta, items, stats):
                 check_ext(c["t"], G, t2, "C%d/result" % i)
         except L.NotDocumented:
             pass
+    for i, mc in enumerate(meta["M"]):
+        ctx.count(["M", pidx, i, mc])
+        stats["program_observations"] += 1
+        got = obs.get(("M", i))
+        if got is None:
+            viol("program-observation-missing", "no output for tagged-func-field case M %d (%s)" % (i, mc["mode"]), dict(case=mc, output=(out + err)[-800:]))
+            break
+        if got != mc["want"]:
+            if mc["mode"].startswith("add-inplace-spread"):
+                sig = "program-tagged-variadic-field-inplace-spread"
+            else:
+                sig = "program-tagged-func-field-" + mc["mode"]
+            viol(sig, "js-tagged func field used as %s: the JS method (which uses `this`) returned %s, expected %s" % (mc["mode"], got, mc["want"]), dict(case=mc))
+            if not mc["mode"].startswith("add-inplace-spread"):
+                break           # the JS object's state is off from here on
+    for i, vc in enumerate(meta["V"]):
+        ctx.count(["V", pidx, i, vc])
+        text = obs.get(("V", i))
+        if text is None:
+            viol("program-observation-missing", "no output for variadic spread case V %d" % i, dict(case=vc, output=(out + err)[-800:]))
+            continue
+        check_ext(["slice", "iface"], {"sl": vc["vals"]}, json.dumps({"a": json.loads(text)["a"]}) if text.startswith("{") else text, "V%d/spread-offset" % i)
     for i, dcase in enumerate(meta["D"]):
         ctx.count(["D", dcase])
         tw = obs.get(("DW", i))
